@@ -28,7 +28,8 @@ THEOREMS = ["Pyro.C14.C14_mem_refines", "Pyro.C14.C14_sql_refines", "Pyro.C14.C1
             "Pyro.C14.C14_counts", "Pyro.C14.C14_counts_mem", "Pyro.C14.C14_counts_sql", "Pyro.C14.C14_ns_protected",
             "Pyro.C14.C14_atomic", "Pyro.C14.C14_atomic_inv", "Pyro.C14.C14_reopen",
             "Pyro.C14.C14_literal_names", "Pyro.C14.C14_like_not_literal", "Pyro.C14.C14_meta_all_raw_differs",
-            "Pyro.C14.C14_gen_sql", "Pyro.C14.C14_gen_params", "Pyro.C14.C14_gen_schema", "Pyro.C14.C14_gen_nsname"]
+            "Pyro.C14.C14_gen_sql", "Pyro.C14.C14_gen_cover", "Pyro.C14.C14_gen_texts", "Pyro.C14.C14_gen_schema",
+            "Pyro.C14.C14_gen_nsname"]
 SUITES = ["mem", "sql", "sql-faults", "spec", "like"]
 RULE = ("histories of 4..30 operations (register safe/unsafe with tag lists incl. duplicates, set_metadata, lookup, "
         "remove by name/prefix/regex and combinations, list, yplookup all/any, count, reopen) over a per-history universe of "
@@ -49,8 +50,6 @@ TRUSTED = ["the sqlite3 stand-in module (counts / fails execute and commit calls
            "Python `dict` reference map `Ref` in harness/props/c14.py (the property statement written out)"]
 
 NS_NAME = "Pyro.NameServer"
-MODELLED = ["__getitem__", "__setitem__", "__len__", "__contains__", "__delitem__", "__iter__",
-            "optimized_prefix_list", "optimized_metadata_search", "remove_items", "everything"]
 
 
 # ----------------------------------------------------------------------------------------------------
@@ -66,115 +65,155 @@ def _norm_ws(s):
     return " ".join(s.split())
 
 
-def _sql_of(node, assigns):
-    """SQL text(s) of the first argument of an execute call"""
-    if isinstance(node, ast.Constant) and isinstance(node.value, str):
-        return [node.value]
-    if isinstance(node, ast.Name) and node.id in assigns:
-        return list(assigns[node.id])
-    raise ValueError("execute() argument of unrecognised shape: " + ast.dump(node)[:200])
+def _norm_sql(s):
+    """whitespace collapsed; a parameter list `IN (?,?,?)` of any length written as the source template does"""
+    return re.sub(r"IN \((?:\?\s*,\s*)*\?\)", "IN ({seq})", _norm_ws(s))
 
 
-def _template(node):
-    """'...'.format(seq=...)  ->  the template string (adjacent literals are already concatenated by the parser)"""
-    if isinstance(node, ast.Call) and isinstance(node.func, ast.Attribute) and node.func.attr == "format" \
-            and isinstance(node.func.value, ast.Constant) and isinstance(node.func.value.value, str):
-        return node.func.value.value
-    if isinstance(node, ast.Constant) and isinstance(node.value, str):
-        return node.value
-    return None
+_SQL_HEAD = re.compile(r"\s*(SELECT|INSERT|DELETE|UPDATE|REPLACE|PRAGMA|CREATE|ALTER|DROP|VACUUM|BEGIN|COMMIT|ROLLBACK|ATTACH)\b", re.I)
+
+U1, U2 = "PYRO:o@h:1", "PYRO:p@h:2"
+# (kind, str arguments, wm, all): the calls made on the real SqlStorage, in this order, starting from an empty database.
+# Every statement of every modelled method is executed by at least one of them (obligation C14_gen_cover), every
+# `if` of those methods is taken both ways.
+PROBES = [
+    ("setItem", ["a_", U1, "t", "u"], False, False),
+    ("setItem", ["ab", U1], False, False),
+    ("setItem", ["AB", U1, "t"], False, False),
+    ("getItem", ["a_"], False, False),
+    ("getItem", ["zz"], False, False),
+    ("setItem", ["a_", U2, "v"], False, False),          # overwrite: old row and its tags deleted, new rowid
+    ("setItem", ["ab", U2], False, False),               # overwrite without tags
+    ("len", [], False, False),
+    ("contains", ["AB"], False, False),
+    ("contains", ["ab_"], False, False),
+    ("iter", [], False, False),
+    ("optPrefix", ["a"], True, False),
+    ("optPrefix", ["a_"], False, False),
+    ("optPrefix", ["A%"], True, False),
+    ("optRegex", ["a.*"], True, False),
+    ("optMeta", ["t", "t", "v"], True, False),           # metadata_any, duplicate tag
+    ("optMeta", ["v"], False, False),
+    ("optMeta", ["t", "t"], True, True),                 # metadata_all, duplicate tag
+    ("optMeta", ["v", "t", "v"], False, True),
+    ("everything", [], True, False),
+    ("everything", [], False, False),
+    ("delItem", ["AB"], False, False),
+    ("delItem", ["zz"], False, False),
+    ("setItem", ["n3", U1, "x"], False, False),          # reuses the rowid freed by the deletion above
+    ("removeItems", ["ab", "zz", "a_"], False, False),
+    ("everything", [], True, False),
+]
+
+
+def _probe_call(st, kind, strs, wm, all_):
+    try:
+        if kind == "getItem":
+            return st[strs[0]]
+        if kind == "setItem":
+            st[strs[0]] = (strs[1], set(strs[2:]) or None)
+        elif kind == "len":
+            return len(st)
+        elif kind == "contains":
+            return strs[0] in st
+        elif kind == "delItem":
+            del st[strs[0]]
+        elif kind == "iter":
+            return list(iter(st))
+        elif kind == "optPrefix":
+            return st.optimized_prefix_list(strs[0], wm)
+        elif kind == "optRegex":
+            return st.optimized_regex_list(strs[0], wm)
+        elif kind == "optMeta":
+            if all_:
+                return st.optimized_metadata_search(metadata_all=list(strs), return_metadata=wm)
+            return st.optimized_metadata_search(metadata_any=list(strs), return_metadata=wm)
+        elif kind == "removeItems":
+            st.remove_items(list(strs))
+        elif kind == "everything":
+            return st.everything(wm)
+        else:
+            raise ValueError(kind)
+    except KeyError:
+        return None
+
+
+def _lean_events(events):
+    def arg(a):
+        if isinstance(a, bool) or not isinstance(a, (int, str)):
+            raise ValueError("statement parameter of unexpected type: %r" % (a,))
+        return ".inl %d" % a if isinstance(a, int) else ".inr %s" % [ord(c) for c in a]
+    return "[" + ", ".join("(%s, [%s])" % (_lean_str(t), ", ".join(arg(a) for a in ps)) for t, ps in events) + "]"
 
 
 def extract():
+    """
+    Facts are obtained by running the real code, not by reading its shape: the statements (text, parameter values,
+    connection discipline) that every SqlStorage method really executes on a fixed table of calls, the schema sqlite
+    reports, what reopening executes.  One fact is lexical: the set of SQL texts occurring anywhere in the module.
+    """
     common.repo_on_path()
     from Pyro5 import nameserver, core
-    src = open(nameserver.__file__).read()
-    tree = ast.parse(src)
-    cls = [n for n in tree.body if isinstance(n, ast.ClassDef) and n.name == "SqlStorage"]
-    if len(cls) != 1:
-        raise ValueError("class SqlStorage not found")
-    stmts, params, others = {}, {}, []
-    for fn in cls[0].body:
-        if not isinstance(fn, ast.FunctionDef):
-            continue
-        assigns = {}
-        calls = []
-        for node in ast.walk(fn):
-            if isinstance(node, ast.Assign) and len(node.targets) == 1 and isinstance(node.targets[0], ast.Name):
-                t = _template(node.value)
-                if t is not None:
-                    assigns.setdefault(node.targets[0].id, []).append((node.lineno, t))
-            if isinstance(node, ast.Call) and isinstance(node.func, ast.Attribute) and node.func.attr in ("execute", "commit", "executemany", "executescript"):
-                calls.append(node)
-        assigns = {k: [t for _, t in sorted(v)] for k, v in assigns.items()}
-        calls.sort(key=lambda c: (c.lineno, c.col_offset))
-        texts, pars = [], []
-        for c in calls:
-            if c.func.attr == "commit":
-                texts.append("COMMIT")
-                pars.append("")
-            elif c.func.attr == "execute":
-                if not c.args:
-                    raise ValueError("execute() without arguments in " + fn.name)
-                for t in _sql_of(c.args[0], assigns):
-                    texts.append(_norm_ws(t))
-                    pars.append(ast.unparse(c.args[1]) if len(c.args) > 1 else "")
-            else:
-                raise ValueError("unmodelled call %s in %s" % (c.func.attr, fn.name))
-        if texts:
-            if fn.name in MODELLED:
-                stmts[fn.name] = texts
-                params[fn.name] = pars
-            else:
-                others.append(fn.name)
-    missing = [m for m in MODELLED if m not in stmts]
-    if missing:
-        raise ValueError("SqlStorage methods without execute calls: %r" % missing)
-    # the statements that prepare the parameters of the metadata_all query (else-branch of `if metadata_any:`)
-    oms = [f for f in cls[0].body if isinstance(f, ast.FunctionDef) and f.name == "optimized_metadata_search"][0]
-    all_prep = None
-    for node in ast.walk(oms):
-        if isinstance(node, ast.If) and isinstance(node.test, ast.Name) and node.test.id == "metadata_any":
-            all_prep = [ast.unparse(s) for s in node.orelse if not (isinstance(s, ast.Assign) and getattr(s.targets[0], "id", "") == "sql")]
-            any_prep = [ast.unparse(s) for s in node.body if not (isinstance(s, ast.Assign) and getattr(s.targets[0], "id", "") == "sql")]
-    if all_prep is None:
-        raise ValueError("optimized_metadata_search: `if metadata_any:` not found")
-    schema = []
-    cs = [f for f in cls[0].body if isinstance(f, ast.FunctionDef) and f.name == "_create_schema"][0]
-    for node in ast.walk(cs):
-        if isinstance(node, ast.Call) and getattr(node.func, "attr", "") == "execute":
-            schema.append((node.lineno, _norm_ws(node.args[0].value)))
-    schema = [t for _, t in sorted(schema)]
-    isolation = []
-    for node in ast.walk(cls[0]):
-        if isinstance(node, ast.Call) and getattr(node.func, "attr", "") == "connect":
-            isolation.append(ast.unparse(node))
-    connects = sorted(set(isolation))
+    faults = Faults()
+    old = nameserver.sqlite3
+    base = "/dev/shm" if os.path.isdir("/dev/shm") and os.access("/dev/shm", os.W_OK) else None
+    tmp = tempfile.mkdtemp(prefix="verif-c14x-", dir=base)
+    nameserver.sqlite3 = SqliteShim(faults)
+    try:
+        path = os.path.join(tmp, "probe.sqlite")
+        st = nameserver.SqlStorage(path)
+        db = real_sqlite3.connect(path)
+        schema = [_norm_ws(r[0]) for r in db.execute("SELECT sql FROM sqlite_master WHERE type='table' ORDER BY name").fetchall()]
+        db.close()
+        rows = []
+        for kind, strs, wm, all_ in PROBES:
+            faults.reset()
+            _probe_call(st, kind, strs, wm, all_)
+            ev = [(_norm_sql(t), list(ps)) for t, ps in faults.events]
+            rows.append("  (%s, %s, %s, %s, %s)" % (_lean_str(kind), [[ord(c) for c in x] for x in strs], str(bool(wm)).lower(),
+                                                   str(bool(all_)).lower(), "none" if not ev else "some " + _lean_events(ev)))
+        faults.reset()
+        before = sorted(real_sqlite3.connect(path).execute("SELECT id, name, uri FROM pyro_names").fetchall())
+        nameserver.SqlStorage(path)
+        reopen = [_norm_sql(t) for t, _ in faults.events]
+        faults.reset()
+        after = sorted(real_sqlite3.connect(path).execute("SELECT id, name, uri FROM pyro_names").fetchall())
+        reopen_same = before == after
+    finally:
+        nameserver.sqlite3 = old
+        shutil.rmtree(tmp, ignore_errors=True)
+    # lexical: every SQL text that occurs as a string constant anywhere in the module
+    tree = ast.parse(open(nameserver.__file__).read())
+    docstrings = set()
+    for n in ast.walk(tree):
+        if isinstance(n, (ast.Module, ast.ClassDef, ast.FunctionDef, ast.AsyncFunctionDef)) and n.body \
+                and isinstance(n.body[0], ast.Expr) and isinstance(n.body[0].value, ast.Constant):
+            docstrings.add(id(n.body[0].value))
+    texts = sorted({_norm_ws(n.value) for n in ast.walk(tree)
+                    if isinstance(n, ast.Constant) and isinstance(n.value, str) and id(n) not in docstrings
+                    and _SQL_HEAD.match(n.value)})
 
     def lst(xs):
         return "[" + ", ".join(_lean_str(x) for x in xs) + "]"
 
-    def table(d):
-        return "[\n" + ",\n".join("  (%s, %s)" % (_lean_str(m), lst(d[m])) for m in MODELLED) + "]"
-
-    return f"""-- GENERATED by harness/props/c14.py from {os.path.relpath(nameserver.__file__, common.REPO)} — do not edit
+    probe_rows = (",%s" % chr(10)).join(rows)
+    return f"""-- GENERATED by harness/props/c14.py by running {os.path.relpath(nameserver.__file__, common.REPO)} — do not edit
 namespace Pyro.Gen.C14
 /-- code points of core.NAMESERVER_NAME -/
 def nsName : List Nat := {[ord(c) for c in core.NAMESERVER_NAME]}
-/-- SQL text (whitespace normalised) of every execute call, and "COMMIT" for every explicit commit(), of each
-    SqlStorage method NameServer uses, in source order; a variable argument stands for all templates assigned to it -/
-def sqlStmts : List (String × List String) := {table(stmts)}
-/-- source text of the parameter argument of those execute calls -/
-def sqlParams : List (String × List String) := {table(params)}
-/-- statements preparing the parameters in the metadata_any / metadata_all branch of optimized_metadata_search -/
-def metaAnyPrep : List String := {lst(any_prep)}
-def metaAllPrep : List String := {lst(all_prep)}
-/-- the CREATE TABLE statements of _create_schema -/
+/-- (method, str arguments, return_metadata, metadata_all?, what the real SqlStorage executed for that call:
+    `none` = no connection opened; else "CONNECT" (with any non-default connect arguments), each statement (text with
+    whitespace collapsed and `IN (?,..)` written `IN ({{seq}})`; parameter values), "COMMIT" per explicit commit(),
+    "EXIT" when the connection's `with` block ends).  The calls were made in this order on one database file. -/
+def probes : List (String × List (List Nat) × Bool × Bool × Option (List (String × List (Nat ⊕ List Nat)))) := [
+{probe_rows}]
+/-- what sqlite reports as the schema of a database created by SqlStorage (tables by name) -/
 def schema : List String := {lst(schema)}
-/-- other SqlStorage methods that execute SQL (not called by NameServer) -/
-def otherSqlMethods : List String := {lst(sorted(others))}
-/-- distinct sqlite3.connect(...) call texts in SqlStorage -/
-def connects : List String := {lst(connects)}
+/-- what `SqlStorage(dbfile)` executes on an existing database, and whether pyro_names was left as it was -/
+def reopenTrace : List String := {lst(reopen)}
+def reopenKeepsRows : Bool := {str(reopen_same).lower()}
+/-- every SQL text occurring as a string constant anywhere in nameserver.py (whitespace collapsed, sorted) -/
+def sqlTexts : List String := {lst(texts)}
 end Pyro.Gen.C14
 """
 
@@ -191,13 +230,16 @@ class Faults:
         self.fail_at = None     # index of the statement that raises
         self.after = False      # raise after really executing it (statement had its effect, then the error)
         self.fired = False
-        self.texts = []
+        self.events = []        # (text, parameters) of every statement; markers CONNECT / COMMIT / EXIT
 
-    def hit(self, text):
+    def hit(self, text, params=()):
         i = self.count
         self.count += 1
-        self.texts.append(text)
+        self.events.append((text, tuple(params)))
         return self.fail_at is not None and i == self.fail_at
+
+    def mark(self, text):
+        self.events.append((text, ()))
 
 
 class _Cursor:
@@ -206,7 +248,7 @@ class _Cursor:
         self._f = faults
 
     def execute(self, sql, *args):
-        fire = self._f.hit(sql)
+        fire = self._f.hit(sql, args[0] if args else ())
         if fire and not self._f.after:
             self._f.fired = True
             raise real_sqlite3.OperationalError("injected failure")
@@ -226,7 +268,7 @@ class _Conn:
         self._f = faults
 
     def execute(self, sql, *args):
-        fire = self._f.hit(sql)
+        fire = self._f.hit(sql, args[0] if args else ())
         if fire and not self._f.after:
             self._f.fired = True
             raise real_sqlite3.OperationalError("injected failure")
@@ -250,6 +292,7 @@ class _Conn:
         return self
 
     def __exit__(self, *exc):
+        self._f.mark("EXIT")
         try:
             return self._conn.__exit__(*exc)
         finally:
@@ -266,6 +309,8 @@ class SqliteShim:
         self.faults = faults
 
     def connect(self, *a, **kw):
+        extra = list(a[1:]) + ["%s=%r" % kv for kv in sorted(kw.items())]
+        self.faults.mark("CONNECT" + "".join(" " + str(x) for x in extra))
         return _Conn(real_sqlite3.connect(*a, **kw), self.faults)
 
     def __getattr__(self, name):
